@@ -98,6 +98,8 @@ EndConn(s, e, cn) ==
   \* ---- C13
   \cup Cl(~cn.closed \/ (cn.nclose = 1 /\ ~cn.in_map), "P13_torn_down_exactly_once")
   \cup Cl(~cn.closed \/ cn.bufs_closed, "P13_buffers_released")
+  \* (... and nothing is counted as pending on a connection that is gone: a producer must not find a backlog to wait for)
+  \cup Cl(~cn.closed \/ cn.total = 0, "P13_buffers_released")
   \cup Cl(cn.closed \/ ~cn.accepted \/ cn.in_map, "P13_open_connection_stays_polled")
   \cup Cl(~(quiet /\ cn.accepted /\ ~s.cfg.conns[i].faulty /\ cn.client_done /\ s.cfg.infinite) \/ cn.closed \/ n = s.cfg.conns[i].ncomplete, "P13_other_connections_undisturbed")
   \cup Cl(~(quiet /\ s.hard[i]) \/ cn.closed, "P13_connection_with_a_send_error_is_torn_down")
